@@ -723,6 +723,722 @@ fn run_idx(c: &Case, max: Option<usize>, coords: &[SemanticBlobCoordinate], ops:
     finish_line(res, dump, fails)
 }
 
+
+// ------------------------------------------------------------------------------------------- export profiles
+//
+// kind=exp seed=<n> pairs=<n> pool=<hex>,... mats=<kind 1..7>/<posture 0..5>/<coord hex>/<pool idx>,...
+//   A real FilesystemWalStore is filled with `pairs` submission+tick transaction pairs, sealed, recovered and
+//   projected to a WalRoot.  The record set (acceptances, receipts, correlations, retained materials whose
+//   material_digest is blake3(pool[idx]), reading refs) goes through each export profile and back, then every
+//   referenced blob (segment bytes, each present retained payload) is individually withheld / corrupted.
+//   Output: one token per variant, `name=ok|E:<class>[:detail]`, then oracle=...
+mod exp {
+    use super::*;
+    use warp_core::causal_wal::{
+        build_recovery_certificate, build_submission_acceptance_transaction, build_tick_transaction,
+        project_filesystem_wal_recovery, recover_filesystem_store, AffectedFrontier, AffectedFrontierKind,
+        EvidenceMaterialPosture, FilesystemWalStore, Lsn, PayloadCodecId, PayloadSchemaId, ReadingRefRecord,
+        RecoveryAccessMode, RetainedMaterialKind, RetainedMaterialRecord, SubmissionAcceptanceRecord,
+        TickReceiptRecord, WalAppendAuthority, WalDurabilityMode, WalManifest, WalReceiptCorrelationRecord,
+        WalRecoveryProjectionPosture, WalRoot, WalSegmentId, WalStorePort, WalTickDecision, WalTransactionBuilder,
+        WalTransactionId, WalTransactionKind, WalWriterEpoch, WriterEpochId, WriterEpochRequest,
+    };
+    use warp_core::wsc::{
+        validate_wsc_cas_addressed_wal_export, validate_wsc_ref_only_wal_export,
+        validate_wsc_self_contained_wal_export, wsc_cas_addressed_wal_export, wsc_ref_only_wal_export,
+        wsc_self_contained_wal_export, WscCasAddressedRetainedMaterialReference, WscCasAddressedWalExportError,
+        WscCasAddressedWalImportError, WscCasAddressedWalSegmentMaterial, WscCasBlobStorePort,
+        WscCausalHistoryExportProfileKind, WscRetentionRecords, WscSelfContainedRetainedMaterial,
+        WscSelfContainedWalExportError, WscSelfContainedWalImportError, WscSelfContainedWalSegmentMaterial,
+        WscWalCausalHistoryRecords,
+    };
+    use warp_core::{CausalTickReceiptRef, GlobalTick, Hash, WorldlineId, WorldlineTick};
+
+    fn digest(label: &str) -> Hash {
+        blake3::hash(label.as_bytes()).into()
+    }
+    fn epoch_id() -> WriterEpochId {
+        WriterEpochId::from_hash(digest("epoch:1"))
+    }
+    fn builder(tx: &str, first_lsn: Lsn, auth: WalAppendAuthority, kind: WalTransactionKind, pf: Hash, pc: Hash) -> WalTransactionBuilder {
+        WalTransactionBuilder::new(
+            epoch_id(),
+            WalSegmentId::from_raw(1),
+            WalTransactionId::from_hash(digest(tx)),
+            kind,
+            auth,
+            first_lsn,
+            pf,
+            pc,
+            WalDurabilityMode::Buffered,
+            PayloadCodecId::from_hash(digest("codec")),
+            PayloadSchemaId::from_hash(digest("schema")),
+            1,
+            1,
+            digest("domain"),
+        )
+    }
+    fn frontier(kind: AffectedFrontierKind, l: &str) -> AffectedFrontier {
+        AffectedFrontier { kind, before_digest: digest(&format!("{l}:before")), after_digest: digest(&format!("{l}:after")) }
+    }
+    fn acceptance(l: &str) -> SubmissionAcceptanceRecord {
+        SubmissionAcceptanceRecord {
+            submission_id: digest(&format!("submission:{l}")),
+            canonical_envelope_digest: digest(&format!("envelope:{l}")),
+            idempotency_key_digest: None,
+            acceptance_evidence_digest: digest(&format!("accepted-evidence:{l}")),
+        }
+    }
+    fn receipt_ref(l: &str) -> CausalTickReceiptRef {
+        CausalTickReceiptRef {
+            worldline_id: WorldlineId::from_bytes(digest(&format!("worldline:{l}"))),
+            worldline_tick_after: WorldlineTick::from_raw(1),
+            commit_global_tick: GlobalTick::from_raw(1),
+            commit_hash: digest(&format!("commit:{l}")),
+            submission_id: digest(&format!("submission:{l}")),
+            ticket_digest: digest(&format!("ticket:{l}")),
+            receipt_content_digest: digest(&format!("receipt:{l}")),
+        }
+    }
+
+    pub struct Fixture {
+        pub root: WalRoot,
+        pub segment_bytes: Vec<u8>,
+        pub acc: Vec<SubmissionAcceptanceRecord>,
+        pub rec: Vec<TickReceiptRecord>,
+        pub cor: Vec<WalReceiptCorrelationRecord>,
+    }
+
+    pub fn fixture(seed: u64, pairs: usize) -> Result<Fixture, String> {
+        let dir = scratch_dir("wal");
+        std::fs::create_dir_all(&dir).map_err(|e| e.to_string())?;
+        let mut store = FilesystemWalStore::open(&dir, WalSegmentId::from_raw(1)).map_err(|e| format!("open:{e:?}"))?;
+        let we = store
+            .acquire_writer_epoch(WriterEpochRequest {
+                epoch_id: epoch_id(),
+                storage_fencing_token: digest("fencing"),
+                process_identity: digest("process"),
+                host_identity: digest("host"),
+                started_at_lsn: Lsn::from_raw(0),
+                previous_epoch_id: None,
+                previous_epoch_final_commit_digest: None,
+                lease_or_lock_evidence: digest("lease"),
+            })
+            .map_err(|e| format!("epoch:{e:?}"))?;
+        let (mut acc, mut rec, mut cor) = (Vec::new(), Vec::new(), Vec::new());
+        let mut next = 0u64;
+        let (mut pf, mut pc) = (digest("previous-frame"), digest("previous-commit"));
+        for i in 0..pairs {
+            let l = format!("{seed}:{i}");
+            let a = acceptance(&l);
+            let dec = match (seed as usize + i) % 3 {
+                0 => WalTickDecision::Applied,
+                1 => WalTickDecision::RejectedFootprintConflict,
+                _ => WalTickDecision::Obstructed,
+            };
+            let r = TickReceiptRecord { receipt_ref: receipt_ref(&l), decision: dec };
+            let c = WalReceiptCorrelationRecord {
+                receipt_ref: receipt_ref(&l),
+                causal_parent_receipts: if i > 0 && (seed + i as u64) % 2 == 0 { vec![receipt_ref(&format!("{seed}:{}", i - 1))] } else { Vec::new() },
+            };
+            let t1 = build_submission_acceptance_transaction(
+                builder(&format!("tx:s:{l}"), Lsn::from_raw(next), WalAppendAuthority::SubmissionIntake, WalTransactionKind::SubmissionIntake, pf, pc),
+                a,
+                vec![frontier(AffectedFrontierKind::SubmissionQueue, &format!("queue:{l}"))],
+            )
+            .map_err(|e| format!("build-sub:{e:?}"))?;
+            next = t1.commit.last_lsn.as_u64() + 1;
+            pc = t1.commit.commit_digest;
+            if let Some(f) = t1.frames.last() {
+                pf = f.digest();
+            }
+            store.append_transaction(t1).map_err(|e| format!("append-sub:{e:?}"))?;
+            let t2 = build_tick_transaction(
+                builder(&format!("tx:t:{l}"), Lsn::from_raw(next), WalAppendAuthority::TrustedScheduler, WalTransactionKind::SchedulerTick, pf, pc),
+                r,
+                c.clone(),
+                digest(&format!("state-delta:{l}")),
+                vec![frontier(AffectedFrontierKind::RuntimeState, &format!("state:{l}")), frontier(AffectedFrontierKind::ReceiptIndex, &format!("receipt:{l}"))],
+            )
+            .map_err(|e| format!("build-tick:{e:?}"))?;
+            next = t2.commit.last_lsn.as_u64() + 1;
+            pc = t2.commit.commit_digest;
+            if let Some(f) = t2.frames.last() {
+                pf = f.digest();
+            }
+            store.append_transaction(t2).map_err(|e| format!("append-tick:{e:?}"))?;
+            acc.push(a);
+            rec.push(r);
+            cor.push(c);
+        }
+        store.seal_segment(epoch_id(), WalSegmentId::from_raw(1)).map_err(|e| format!("seal:{e:?}"))?;
+        let segment_bytes = std::fs::read(store.segment_path()).map_err(|e| e.to_string())?;
+        let last = store.read_commits().last().map(|c| (c.last_lsn, c.commit_digest)).ok_or("no commits")?;
+        store
+            .publish_manifest(
+                epoch_id(),
+                WalManifest { manifest_digest: digest(&format!("manifest:{seed}")), last_committed_lsn: Some(last.0), last_commit_digest: Some(last.1), sealed_segment_count: 1 },
+            )
+            .map_err(|e| format!("manifest:{e:?}"))?;
+        let report = recover_filesystem_store(&dir, RecoveryAccessMode::ReadOnly).map_err(|e| format!("recover:{e:?}"))?;
+        let cert = build_recovery_certificate(&report, None, 0, digest("frontier"), digest("indexes"));
+        let wep = WalWriterEpoch::from_writer_epoch(&we);
+        let proj = project_filesystem_wal_recovery(&dir, &report, std::slice::from_ref(&wep), Some(&cert));
+        drop(store);
+        let _ = std::fs::remove_dir_all(&dir);
+        if proj.posture != WalRecoveryProjectionPosture::Present {
+            return Err(format!("projection:{:?}:{:?}", proj.posture, proj.obstructions));
+        }
+        Ok(Fixture { root: proj.root.ok_or("no root")?, segment_bytes, acc, rec, cor })
+    }
+
+    fn mat_kind(n: u8) -> RetainedMaterialKind {
+        match n {
+            1 => RetainedMaterialKind::SubmissionPayload,
+            2 => RetainedMaterialKind::TickReceipt,
+            3 => RetainedMaterialKind::RuntimeStateDelta,
+            4 => RetainedMaterialKind::RuntimeControl,
+            5 => RetainedMaterialKind::ReadingPayload,
+            6 => RetainedMaterialKind::ReadingEnvelope,
+            _ => RetainedMaterialKind::Diagnostic,
+        }
+    }
+    fn posture(n: u8) -> EvidenceMaterialPosture {
+        match n {
+            0 => EvidenceMaterialPosture::Present,
+            1 => EvidenceMaterialPosture::RedactedByPolicy,
+            2 => EvidenceMaterialPosture::EncryptedKeyUnavailable,
+            3 => EvidenceMaterialPosture::Missing,
+            4 => EvidenceMaterialPosture::Corrupt,
+            _ => EvidenceMaterialPosture::Obstructed,
+        }
+    }
+
+    struct MapCas(BTreeMap<Hash, Vec<u8>>);
+    impl WscCasBlobStorePort for MapCas {
+        fn cas_blob_bytes(&self, h: &Hash) -> Option<Vec<u8>> {
+            self.0.get(h).cloned()
+        }
+    }
+
+    fn sc_exp_err(e: &WscSelfContainedWalExportError) -> String {
+        use WscSelfContainedWalExportError as E;
+        match e {
+            E::MissingSegmentMaterial { .. } => "E:x-missing-segment".into(),
+            E::ExtraSegmentMaterial { .. } => "E:x-extra-segment".into(),
+            E::MissingRetainedMaterial { material_digest } => format!("E:x-missing-retained:{}", hx(material_digest)),
+            E::ExtraRetainedMaterial { material_digest } => format!("E:x-extra-retained:{}", hx(material_digest)),
+            E::RetainedMaterialDigestMismatch { expected, actual } => format!("E:x-digest-mismatch:{}:{}", hx(expected), hx(actual)),
+            E::Retention(_) => "E:x-retention".into(),
+            E::RetainedMaterial(_) => "E:x-retained-envelope".into(),
+            E::SegmentMaterial(_) => "E:x-segment-envelope".into(),
+            _ => "E:x-other".into(),
+        }
+    }
+    fn sc_imp_err(e: &WscSelfContainedWalImportError) -> String {
+        use WscSelfContainedWalImportError as E;
+        match e {
+            E::MissingSegmentMaterial { .. } => "E:missing-segment".into(),
+            E::ExtraSegmentMaterial { .. } => "E:extra-segment".into(),
+            E::SegmentRecovery { .. } => "E:segment-recovery".into(),
+            E::SegmentDigestMismatch { .. } => "E:segment-digest".into(),
+            E::SegmentLsnRangeMismatch { .. } => "E:segment-lsn".into(),
+            E::SegmentCommitChainMismatch { .. } => "E:segment-chain".into(),
+            E::SegmentCommitAnchorMismatch { .. } => "E:segment-anchors".into(),
+            E::SegmentTailPostureMismatch { .. } => "E:segment-tail".into(),
+            E::MissingRetainedMaterial { material_digest } => format!("E:missing-retained:{}", hx(material_digest)),
+            E::ExtraRetainedMaterial { material_digest } => format!("E:extra-retained:{}", hx(material_digest)),
+            E::RetainedMaterialDigestMismatch { expected, actual } => format!("E:digest-mismatch:{}:{}", hx(expected), hx(actual)),
+            E::ProjectionBasisMismatch { .. } => "E:projection-basis".into(),
+            E::ProjectionPayloadMismatch { .. } => "E:projection-payload".into(),
+            E::ProfileMismatch { .. } => "E:profile".into(),
+            E::AcceptedSubmissions(_) => "E:accepted".into(),
+            E::ReceiptCorrelations(_) => "E:receipts".into(),
+            E::IncompleteCausalHistory(_) => "E:incomplete".into(),
+            E::Retention(_) => "E:retention".into(),
+            _ => "E:other".into(),
+        }
+    }
+    fn cas_exp_err(e: &WscCasAddressedWalExportError) -> String {
+        use WscCasAddressedWalExportError as E;
+        match e {
+            E::MissingSegmentCasReference { .. } => "E:x-missing-segment-ref".into(),
+            E::ExtraSegmentCasReference { .. } => "E:x-extra-segment-ref".into(),
+            E::RetainedCasReferenceMismatch { missing_from_references, extra_in_references } => {
+                format!("E:x-ref-mismatch:{missing_from_references}:{extra_in_references}")
+            }
+            E::CasReferences(_) => "E:x-cas-references".into(),
+            E::Retention(_) => "E:x-retention".into(),
+            _ => "E:x-other".into(),
+        }
+    }
+    fn cas_imp_err(e: &WscCasAddressedWalImportError) -> String {
+        use WscCasAddressedWalImportError as E;
+        match e {
+            E::MissingCasBlob { content_hash, semantic_coordinate_digest } => {
+                format!("E:missing-blob:{}:{}", hx(content_hash), hx(semantic_coordinate_digest))
+            }
+            E::CasBlobHashMismatch { expected, actual } => format!("E:hash-mismatch:{}:{}", hx(expected), hx(actual)),
+            E::CasBlobLengthMismatch { expected, actual } => format!("E:len-mismatch:{expected}:{actual}"),
+            E::RetainedCasReferenceMismatch { missing_from_references, extra_in_references } => {
+                format!("E:ref-mismatch:{missing_from_references}:{extra_in_references}")
+            }
+            E::SegmentCasReferenceMismatch { .. } => "E:segment-ref".into(),
+            E::SegmentRecovery { .. } => "E:segment-recovery".into(),
+            E::SegmentEvidenceMismatch { .. } => "E:segment-evidence".into(),
+            E::ProfileMismatch { .. } => "E:profile".into(),
+            E::ProjectionBasisMismatch { .. } => "E:projection-basis".into(),
+            E::ProjectionPayloadMismatch { .. } => "E:projection-payload".into(),
+            E::CasReferences(_) => "E:cas-references".into(),
+            E::Retention(_) => "E:retention".into(),
+            E::IncompleteCausalHistory(_) => "E:incomplete".into(),
+            _ => "E:other".into(),
+        }
+    }
+
+    fn sorted<T: Clone, K: Ord>(v: &[T], k: impl Fn(&T) -> K) -> Vec<T> {
+        let mut v = v.to_vec();
+        v.sort_by_key(k);
+        v
+    }
+
+    fn same_records(
+        f: &Fixture,
+        mats: &[RetainedMaterialRecord],
+        reads: &[ReadingRefRecord],
+        acc: &[SubmissionAcceptanceRecord],
+        rec: &[TickReceiptRecord],
+        cor: &[WalReceiptCorrelationRecord],
+        ret: &WscRetentionRecords,
+    ) -> bool {
+        let ka = |a: &SubmissionAcceptanceRecord| a.submission_id;
+        let kr = |r: &TickReceiptRecord| r.receipt_ref.submission_id;
+        let kc = |c: &WalReceiptCorrelationRecord| c.receipt_ref.submission_id;
+        let km = |m: &RetainedMaterialRecord| m.to_payload_bytes();
+        let kd = |m: &ReadingRefRecord| m.to_payload_bytes();
+        sorted(acc, ka) == sorted(&f.acc, ka)
+            && sorted(rec, kr) == sorted(&f.rec, kr)
+            && sorted(cor, kc) == sorted(&f.cor, kc)
+            && sorted(&ret.materials, km) == sorted(mats, km)
+            && sorted(&ret.readings, kd) == sorted(reads, kd)
+    }
+
+    pub fn run(m: &BTreeMap<String, String>, c: &Case) -> String {
+        let seed: u64 = m.get("seed").and_then(|s| s.parse().ok()).unwrap_or(1);
+        let pairs: usize = m.get("pairs").and_then(|s| s.parse().ok()).unwrap_or(1);
+        let f = match fixture(seed, pairs.max(1)) {
+            Ok(f) => f,
+            Err(e) => return format!("res=fixture-failed:{} oracle=FAIL:fixture-failed", e.replace(' ', "_")),
+        };
+        // retained material records
+        let ms = m.get("mats").cloned().unwrap_or_default();
+        let mut mats: Vec<RetainedMaterialRecord> = Vec::new();
+        let mut mat_bytes: Vec<Vec<u8>> = Vec::new();
+        let mut mat_bad: Vec<Option<Vec<u8>>> = Vec::new();
+        for it in if ms.is_empty() || ms == "-" { Vec::new() } else { ms.split(',').collect::<Vec<_>>() } {
+            let g: Vec<&str> = it.split('/').collect();
+            let pi: usize = g[3].parse().unwrap();
+            mats.push(RetainedMaterialRecord {
+                material_digest: c.hashes[pi],
+                semantic_coordinate_digest: hex32(g[2]),
+                kind: mat_kind(g[0].parse().unwrap()),
+                posture: posture(g[1].parse().unwrap()),
+            });
+            mat_bytes.push(c.pool[pi].clone());
+            mat_bad.push(g.get(4).map(|x| c.pool[x.parse::<usize>().unwrap()].clone()));
+        }
+        let reads: Vec<ReadingRefRecord> = mats
+            .iter()
+            .enumerate()
+            .filter(|(_, r)| r.kind == RetainedMaterialKind::ReadingPayload)
+            .map(|(i, r)| ReadingRefRecord {
+                reading_id: digest(&format!("reading:{seed}:{i}")),
+                semantic_coordinate_digest: r.semantic_coordinate_digest,
+                payload_digest: r.material_digest,
+                envelope_digest: digest(&format!("reading-envelope:{seed}:{i}")),
+                posture: r.posture,
+            })
+            .collect();
+        let recs = |mats: &'_ [RetainedMaterialRecord]| -> (Vec<RetainedMaterialRecord>, Vec<ReadingRefRecord>) { (mats.to_vec(), reads.clone()) };
+        let present: Vec<usize> = (0..mats.len()).filter(|&i| mats[i].posture == EvidenceMaterialPosture::Present).collect();
+        let mut out: Vec<String> = Vec::new();
+        let mut fails: Vec<String> = Vec::new();
+        let seg_id = f.root.segments[0].segment_id;
+        let _ = recs;
+
+        // ---------------- ref-only
+        match wsc_ref_only_wal_export(&f.root, records(&f, &mats, &reads)) {
+            Err(e) => {
+                out.push(format!("ref=E:x:{}", first_word(format!("{e:?}"))));
+            }
+            Ok(ex) => match validate_wsc_ref_only_wal_export(&ex, &f.root) {
+                Ok(im) => {
+                    let ok = im.profile == WscCausalHistoryExportProfileKind::RefOnly
+                        && im.root_identity_digest == f.root.identity_digest()
+                        && same_records(&f, &mats, &reads, &im.accepted_submissions, &im.receipts, &im.correlations, &im.retention)
+                        && im.segment_dependencies.len() == f.root.segments.len()
+                        && im.segment_dependencies[0].segment_digest == f.root.segments[0].segment_digest;
+                    if !ok {
+                        fails.push("ref-only-import-differs-from-export-input".into());
+                    }
+                    out.push("ref=ok".into());
+                    // a ref-only export presented as another profile / against another root must be refused
+                    let mut wrong = ex.clone();
+                    wrong.profile = WscCausalHistoryExportProfileKind::SelfContained;
+                    if validate_wsc_ref_only_wal_export(&wrong, &f.root).is_ok() {
+                        fails.push("ref-only-accepts-wrong-profile".into());
+                    }
+                    let mut other_root = f.root.clone();
+                    other_root.segments[0].segment_digest[0] ^= 1;
+                    if validate_wsc_ref_only_wal_export(&ex, &other_root).is_ok() {
+                        fails.push("ref-only-accepts-other-root".into());
+                    }
+                }
+                Err(e) => out.push(format!("ref=E:{}", first_word(format!("{e:?}")))),
+            },
+        }
+
+        // ---------------- self-contained
+        let seg_mat = |bytes: &[u8]| WscSelfContainedWalSegmentMaterial { segment_id: seg_id, segment_bytes: bytes.to_vec() };
+        let payloads = |mats: &[RetainedMaterialRecord], skip: Option<usize>, subst: Option<(usize, Vec<u8>)>| -> Vec<WscSelfContainedRetainedMaterial> {
+            (0..mats.len())
+                .filter(|&i| mats[i].posture == EvidenceMaterialPosture::Present && Some(i) != skip)
+                .map(|i| WscSelfContainedRetainedMaterial {
+                    material: mats[i],
+                    material_bytes: match &subst {
+                        Some((j, b)) if *j == i => b.clone(),
+                        _ => mat_bytes[i].clone(),
+                    },
+                })
+                .collect()
+        };
+        let base_sc = wsc_self_contained_wal_export(&f.root, &[seg_mat(&f.segment_bytes)], &payloads(&mats, None, None), records(&f, &mats, &reads));
+        match &base_sc {
+            Err(e) => out.push(format!("sc={}", sc_exp_err(e))),
+            Ok(ex) => match validate_wsc_self_contained_wal_export(ex, &f.root) {
+                Ok(im) => {
+                    let want = sorted(&payloads(&mats, None, None), |p| p.material.material_digest);
+                    // canonical export de-duplicates equal payloads by digest
+                    let mut want_d = want.clone();
+                    want_d.dedup_by_key(|p| p.material.material_digest);
+                    let ok = same_records(&f, &mats, &reads, &im.accepted_submissions, &im.receipts, &im.correlations, &im.retention)
+                        && sorted(&im.retained_payloads, |p| p.material.material_digest) == want_d
+                        && im.segment_recoveries.len() == 1
+                        && im.segment_recoveries[0].segment_digest == f.root.segments[0].segment_digest
+                        && im.root_identity_digest == f.root.identity_digest();
+                    if !ok {
+                        fails.push("self-contained-import-differs-from-export-input".into());
+                    }
+                    for p in &im.retained_payloads {
+                        if b3(&p.material_bytes) != p.material.material_digest {
+                            fails.push("self-contained-import-returned-bytes-not-hashing-to-digest".into());
+                        }
+                    }
+                    out.push("sc=ok".into());
+                }
+                Err(e) => out.push(format!("sc={}", sc_imp_err(&e))),
+            },
+        }
+        if let Ok(good) = &base_sc {
+            // segment withheld at export
+            match wsc_self_contained_wal_export(&f.root, &[], &payloads(&mats, None, None), records(&f, &mats, &reads)) {
+                Ok(_) => {
+                    fails.push("self-contained-export-without-segment-accepted".into());
+                    out.push("sc.segw=ok".into());
+                }
+                Err(e) => out.push(format!("sc.segw={}", sc_exp_err(&e))),
+            }
+            // segment bytes corrupted (several positions, truncation, extension)
+            let n = f.segment_bytes.len();
+            let mut rng = Rng(seed ^ 0x5eed);
+            let mut variants: Vec<(String, Vec<u8>)> = Vec::new();
+            for k in 0..6 {
+                let pos = if k == 0 { n - 1 } else if k == 1 { 0 } else { rng.below(n) };
+                let mut b = f.segment_bytes.clone();
+                b[pos] ^= 1 << rng.below(8);
+                variants.push((format!("f{pos}"), b));
+            }
+            variants.push(("t1".into(), f.segment_bytes[..n - 1].to_vec()));
+            variants.push((format!("t{}", n / 2), f.segment_bytes[..n / 2].to_vec()));
+            let mut ext = f.segment_bytes.clone();
+            ext.push(0);
+            variants.push(("x1".into(), ext));
+            variants.push(("empty".into(), Vec::new()));
+            let mut classes: BTreeMap<String, usize> = BTreeMap::new();
+            for (name, b) in &variants {
+                match wsc_self_contained_wal_export(&f.root, &[seg_mat(b)], &payloads(&mats, None, None), records(&f, &mats, &reads)) {
+                    Err(e) => *classes.entry(sc_exp_err(&e)).or_default() += 1,
+                    Ok(ex) => match validate_wsc_self_contained_wal_export(&ex, &f.root) {
+                        Ok(im) => {
+                            if im.segment_recoveries[0].segment_digest == f.root.segments[0].segment_digest && b != &f.segment_bytes {
+                                // accepted altered bytes whose recovered digest equals the root's: only trailing
+                                // bytes outside every record could do that
+                                fails.push(format!("self-contained-accepts-altered-segment-bytes[{name}]"));
+                            } else {
+                                fails.push(format!("self-contained-accepts-corrupt-segment[{name}]"));
+                            }
+                            *classes.entry("ok".into()).or_default() += 1;
+                        }
+                        Err(e) => *classes.entry(sc_imp_err(&e)).or_default() += 1,
+                    },
+                }
+            }
+            out.push(format!("sc.segc={}", classes.iter().map(|(k, v)| format!("{k}*{v}")).collect::<Vec<_>>().join("+")));
+            for &i in &present {
+                let d = mats[i].material_digest;
+                let alone = present.iter().filter(|&&j| mats[j].material_digest == d).count() == 1;
+                // withheld at export
+                match wsc_self_contained_wal_export(&f.root, &[seg_mat(&f.segment_bytes)], &payloads(&mats, Some(i), None), records(&f, &mats, &reads)) {
+                    Ok(_) => {
+                        if alone {
+                            fails.push("self-contained-export-without-retained-payload-accepted".into());
+                        }
+                        out.push(format!("sc.w{i}=ok"));
+                    }
+                    Err(e) => out.push(format!("sc.w{i}={}", sc_exp_err(&e))),
+                }
+                // corrupted at export
+                let mut bad = mat_bytes[i].clone();
+                if let Some(b) = &mat_bad[i] {
+                    bad = b.clone(); // corruption chosen by the case (so that the model sees the same bytes)
+                } else if bad.is_empty() {
+                    bad.push(7);
+                } else {
+                    let k = rng.below(bad.len());
+                    bad[k] ^= 0x40;
+                }
+                match wsc_self_contained_wal_export(&f.root, &[seg_mat(&f.segment_bytes)], &payloads(&mats, None, Some((i, bad.clone()))), records(&f, &mats, &reads)) {
+                    Ok(_) => {
+                        fails.push("self-contained-export-accepts-corrupt-retained-payload".into());
+                        out.push(format!("sc.c{i}=ok"));
+                    }
+                    Err(e) => out.push(format!("sc.c{i}={}", sc_exp_err(&e))),
+                }
+                // withheld on the import side: splice the retained-material envelope of a world where i is not present
+                let mut mats2 = mats.clone();
+                for j in 0..mats2.len() {
+                    if mats2[j].material_digest == d {
+                        mats2[j].posture = EvidenceMaterialPosture::Missing;
+                    }
+                }
+                if let Ok(other) = wsc_self_contained_wal_export(&f.root, &[seg_mat(&f.segment_bytes)], &payloads(&mats2, None, None), records(&f, &mats2, &reads)) {
+                    let mut spliced = good.clone();
+                    spliced.retained_material_envelope = other.retained_material_envelope.clone();
+                    match validate_wsc_self_contained_wal_export(&spliced, &f.root) {
+                        Ok(_) => {
+                            fails.push("self-contained-import-accepts-withheld-retained-payload".into());
+                            out.push(format!("sc.iw{i}=ok"));
+                        }
+                        Err(e) => out.push(format!("sc.iw{i}={}", sc_imp_err(&e))),
+                    }
+                }
+                // corrupted on the import side: the envelope of a world where record i names the corrupt bytes
+                let mut mats3 = mats.clone();
+                let mut bytes3 = mat_bytes.clone();
+                for j in 0..mats3.len() {
+                    if mats3[j].material_digest == d {
+                        mats3[j].material_digest = b3(&bad);
+                        bytes3[j] = bad.clone();
+                    }
+                }
+                let pl3: Vec<WscSelfContainedRetainedMaterial> = (0..mats3.len())
+                    .filter(|&j| mats3[j].posture == EvidenceMaterialPosture::Present)
+                    .map(|j| WscSelfContainedRetainedMaterial { material: mats3[j], material_bytes: bytes3[j].clone() })
+                    .collect();
+                if let Ok(other) = wsc_self_contained_wal_export(&f.root, &[seg_mat(&f.segment_bytes)], &pl3, records(&f, &mats3, &reads)) {
+                    let mut spliced = good.clone();
+                    spliced.retained_material_envelope = other.retained_material_envelope.clone();
+                    match validate_wsc_self_contained_wal_export(&spliced, &f.root) {
+                        Ok(_) => {
+                            fails.push("self-contained-import-accepts-substituted-retained-payload".into());
+                            out.push(format!("sc.ic{i}=ok"));
+                        }
+                        Err(e) => out.push(format!("sc.ic{i}={}", sc_imp_err(&e))),
+                    }
+                }
+            }
+        }
+
+        // ---------------- CAS-addressed
+        let seg_hash = b3(&f.segment_bytes);
+        let seg_coord = digest(&format!("segment-coordinate:{seed}"));
+        let segm = |len: u64| WscCasAddressedWalSegmentMaterial { segment_id: seg_id, content_hash: seg_hash, semantic_coordinate_digest: seg_coord, byte_len: len };
+        let refs = |mats: &[RetainedMaterialRecord], bump: Option<usize>| -> Vec<WscCasAddressedRetainedMaterialReference> {
+            (0..mats.len())
+                .filter(|&i| mats[i].posture == EvidenceMaterialPosture::Present)
+                .map(|i| WscCasAddressedRetainedMaterialReference {
+                    material_kind: mats[i].kind,
+                    content_hash: mats[i].material_digest,
+                    semantic_coordinate_digest: mats[i].semantic_coordinate_digest,
+                    byte_len: mat_bytes[i].len() as u64 + if bump == Some(i) { 1 } else { 0 },
+                })
+                .collect()
+        };
+        let mut cas = MapCas(BTreeMap::new());
+        cas.0.insert(seg_hash, f.segment_bytes.clone());
+        for &i in &present {
+            cas.0.insert(mats[i].material_digest, mat_bytes[i].clone());
+        }
+        let base_cas = wsc_cas_addressed_wal_export(&f.root, &[segm(f.segment_bytes.len() as u64)], &refs(&mats, None), records(&f, &mats, &reads));
+        match &base_cas {
+            Err(e) => out.push(format!("cas={}", cas_exp_err(e))),
+            Ok(ex) => {
+                match validate_wsc_cas_addressed_wal_export(ex, &f.root, &cas) {
+                    Ok(im) => {
+                        let ok = same_records(&f, &mats, &reads, &im.accepted_submissions, &im.receipts, &im.correlations, &im.retention)
+                            && im.cas_references.segments.len() == 1
+                            && im.cas_references.segments[0].content_hash == seg_hash
+                            && im.segment_recoveries[0].segment_digest == f.root.segments[0].segment_digest
+                            && im.root_identity_digest == f.root.identity_digest();
+                        let want: BTreeSet<(u8, Hash, Hash, u64)> = refs(&mats, None).iter().map(|r| (r.material_kind as u8, r.content_hash, r.semantic_coordinate_digest, r.byte_len)).collect();
+                        let got: BTreeSet<(u8, Hash, Hash, u64)> =
+                            im.cas_references.retained_materials.iter().map(|r| (r.material_kind as u8, r.content_hash, r.semantic_coordinate_digest, r.byte_len)).collect();
+                        if !ok || want != got {
+                            fails.push("cas-addressed-import-differs-from-export-input".into());
+                        }
+                        out.push("cas=ok".into());
+                    }
+                    Err(e) => out.push(format!("cas={}", cas_imp_err(&e))),
+                }
+                // every referenced blob individually withheld / corrupted / of another length
+                let mut blobs: Vec<(String, Hash, Vec<u8>)> = vec![("seg".into(), seg_hash, f.segment_bytes.clone())];
+                let mut given: BTreeMap<String, Vec<u8>> = BTreeMap::new();
+                for &i in &present {
+                    if !blobs.iter().any(|b| b.1 == mats[i].material_digest) {
+                        blobs.push((format!("{i}"), mats[i].material_digest, mat_bytes[i].clone()));
+                        if let Some(b) = &mat_bad[i] {
+                            given.insert(format!("{i}"), b.clone());
+                        }
+                    }
+                }
+                let mut rng = Rng(seed ^ 0xca5);
+                for (name, h, orig) in &blobs {
+                    let mut w = MapCas(cas.0.clone());
+                    w.0.remove(h);
+                    match validate_wsc_cas_addressed_wal_export(ex, &f.root, &w) {
+                        Ok(_) => {
+                            fails.push("cas-addressed-import-accepts-withheld-blob".into());
+                            out.push(format!("cas.w{name}=ok"));
+                        }
+                        Err(e) => {
+                            if !matches!(e, WscCasAddressedWalImportError::MissingCasBlob { content_hash, .. } if content_hash == *h) {
+                                fails.push("cas-addressed-withheld-blob-wrong-obstruction".into());
+                            }
+                            out.push(format!("cas.w{name}={}", cas_imp_err(&e)));
+                        }
+                    }
+                    for kind in ["given", "flip", "trunc", "ext", "other"] {
+                        let mut bad = orig.clone();
+                        if kind == "given" && !given.contains_key(name) {
+                            continue;
+                        }
+                        match kind {
+                            "given" => bad = given[name].clone(),
+                            "flip" if !bad.is_empty() => {
+                                let k = rng.below(bad.len());
+                                bad[k] ^= 1 << rng.below(8);
+                            }
+                            "trunc" if !bad.is_empty() => {
+                                bad.pop();
+                            }
+                            "ext" => bad.push(0),
+                            _ => bad = b"some other retained bytes".to_vec(),
+                        }
+                        let mut w = MapCas(cas.0.clone());
+                        w.0.insert(*h, bad.clone());
+                        match validate_wsc_cas_addressed_wal_export(ex, &f.root, &w) {
+                            Ok(_) => {
+                                fails.push("cas-addressed-import-accepts-corrupt-blob".into());
+                                out.push(format!("cas.c{name}.{kind}=ok"));
+                            }
+                            Err(e) => {
+                                if !matches!(e, WscCasAddressedWalImportError::CasBlobHashMismatch { expected, actual } if expected == *h && actual == b3(&bad)) {
+                                    fails.push("cas-addressed-corrupt-blob-wrong-obstruction".into());
+                                }
+                                if name != "seg" || kind == "flip" {
+                                    out.push(format!("cas.c{name}.{kind}={}", cas_imp_err(&e)));
+                                }
+                            }
+                        }
+                    }
+                }
+                // reference length that the stored bytes do not have
+                for &i in &present {
+                    if let Ok(ex2) = wsc_cas_addressed_wal_export(&f.root, &[segm(f.segment_bytes.len() as u64)], &refs(&mats, Some(i)), records(&f, &mats, &reads)) {
+                        match validate_wsc_cas_addressed_wal_export(&ex2, &f.root, &cas) {
+                            Ok(_) => {
+                                fails.push("cas-addressed-import-accepts-wrong-length".into());
+                                out.push(format!("cas.l{i}=ok"));
+                            }
+                            Err(e) => out.push(format!("cas.l{i}={}", cas_imp_err(&e))),
+                        }
+                    }
+                }
+                if let Ok(ex2) = wsc_cas_addressed_wal_export(&f.root, &[segm(f.segment_bytes.len() as u64 + 1)], &refs(&mats, None), records(&f, &mats, &reads)) {
+                    match validate_wsc_cas_addressed_wal_export(&ex2, &f.root, &cas) {
+                        Ok(_) => fails.push("cas-addressed-import-accepts-wrong-length".into()),
+                        Err(e) => out.push(format!("cas.lseg={}", cas_imp_err(&e))),
+                    }
+                }
+                // a reference for a present record withheld from the reference list / an extra reference
+                if let Some(&i) = present.first() {
+                    let mut r = refs(&mats, None);
+                    r.retain(|x| !(x.content_hash == mats[i].material_digest && x.semantic_coordinate_digest == mats[i].semantic_coordinate_digest && x.material_kind == mats[i].kind));
+                    match wsc_cas_addressed_wal_export(&f.root, &[segm(f.segment_bytes.len() as u64)], &r, records(&f, &mats, &reads)) {
+                        Ok(_) => fails.push("cas-addressed-export-accepts-missing-reference".into()),
+                        Err(e) => out.push(format!("cas.xr{i}={}", cas_exp_err(&e))),
+                    }
+                    // import side: splice the reference envelope of the world without record i
+                    let mut mats2 = mats.clone();
+                    mats2[i].posture = EvidenceMaterialPosture::Missing;
+                    if let Ok(other) = wsc_cas_addressed_wal_export(&f.root, &[segm(f.segment_bytes.len() as u64)], &refs(&mats2, None), records(&f, &mats2, &reads)) {
+                        let mut spliced = ex.clone();
+                        spliced.cas_reference_envelope = other.cas_reference_envelope.clone();
+                        match validate_wsc_cas_addressed_wal_export(&spliced, &f.root, &cas) {
+                            Ok(_) => {
+                                // equal (kind, digest, coordinate) triples collapse in the reference set
+                                let dup = (0..mats.len()).any(|j| j != i && mats[j].posture == EvidenceMaterialPosture::Present && mats[j].kind == mats[i].kind
+                                    && mats[j].material_digest == mats[i].material_digest && mats[j].semantic_coordinate_digest == mats[i].semantic_coordinate_digest);
+                                if !dup {
+                                    fails.push("cas-addressed-import-accepts-withheld-reference".into());
+                                }
+                                out.push(format!("cas.ir{i}=ok"));
+                            }
+                            Err(e) => out.push(format!("cas.ir{i}={}", cas_imp_err(&e))),
+                        }
+                    }
+                }
+            }
+        }
+        // a self-contained export must not validate as another profile's input (profile tag is checked)
+        if let (Ok(sc), Ok(_)) = (&base_sc, &base_cas) {
+            let mut wrong = sc.clone();
+            wrong.profile = WscCausalHistoryExportProfileKind::CasAddressed;
+            if validate_wsc_self_contained_wal_export(&wrong, &f.root).is_ok() {
+                fails.push("self-contained-accepts-wrong-profile".into());
+            }
+        }
+        fails.sort();
+        fails.dedup();
+        let orc = if fails.is_empty() { "ok".to_string() } else { format!("FAIL:{}", fails.join(",")) };
+        format!("res={} oracle={}", out.join(","), orc)
+    }
+
+    fn first_word(s: String) -> String {
+        s.split(|c: char| !c.is_alphanumeric()).next().unwrap_or("").to_string()
+    }
+    fn records<'a>(f: &'a Fixture, mats: &'a [RetainedMaterialRecord], reads: &'a [ReadingRefRecord]) -> WscWalCausalHistoryRecords<'a> {
+        WscWalCausalHistoryRecords {
+            retained_materials: mats,
+            reading_refs: reads,
+            accepted_submissions: &f.acc,
+            receipts: &f.rec,
+            correlations: &f.cor,
+            causal_anchors: &[],
+        }
+    }
+}
+
 fn main() {
     for line in read_cases() {
         let m = kv(&line);
@@ -739,6 +1455,7 @@ fn main() {
         let out = match kind {
             "mem" => run_mem(&c, max, &ops),
             "disk" => run_disk(&c, &ops),
+            "exp" => exp::run(&m, &c),
             "idx" => {
                 let cs = m.get("coords").cloned().unwrap_or_default();
                 let coords: Vec<SemanticBlobCoordinate> =
